@@ -13,7 +13,8 @@
 (*   - no call panicked;                                                   *)
 (*   - pair programs (two different well-formed keys): each key reads back *)
 (*     its own value (they did not end up in the same file);               *)
-(*   - fixed-width key helpers: paths confined and pairwise different.     *)
+(*   - fixed-width key helpers: paths confined and pairwise different;     *)
+(*   - the four kinds of CDN object of one hash never share cached bytes.  *)
 (* Known deviations are named by the API family and the escape mechanism.  *)
 (***************************************************************************)
 EXTENDS Paths, TLC, Json, IOUtils
@@ -37,6 +38,13 @@ PairBad(e) == IsPair(e) /\
 FixedBad(e) == "paths" \in DOMAIN e /\
    (\/ \E i \in 1..Len(e.paths) : ~Confined(Root, e.paths[i].p)
     \/ \E i, j \in 1..Len(e.paths) : i < j /\ e.paths[i].fn = e.paths[j].fn /\ e.paths[i].key # e.paths[j].key /\ e.paths[i].p = e.paths[j].p)
+
+\* CDN objects of one hash (data / index / config / patch): different kinds never share bytes, the same kind
+\* reads the same bytes every time (first from the network, then from the cache)
+ObjectsBad(e) == "objects" \in DOMAIN e /\
+   \E i, j \in 1..Len(e.objects) : i < j /\
+      \/ (e.objects[i].kind # e.objects[j].kind /\ e.objects[i].digest = e.objects[j].digest)
+      \/ (e.objects[i].kind = e.objects[j].kind /\ e.objects[i].digest # e.objects[j].digest)
 
 \* the key of the program uses a traversal component (".." or an absolute path): the mechanism of F20a/F20d
 HasTraversal(k) == k.abs \/ \E i \in 1..Len(k.comps) : k.comps[i] \in {"up", "empty", "dot"}
@@ -67,7 +75,7 @@ TNext ==
        LET esc == Escapes(e) # {} \/ e.decoy_read
            pan == Panicked(e)
            pair == PairBad(e)
-           fx == FixedBad(e)
+           fx == FixedBad(e) \/ ObjectsBad(e)
            d1 == IF esc THEN DevEscape(e) ELSE ""
            d2 == IF pair THEN DevTemp(e) ELSE ""
            d3 == IF pan THEN DevPanic(e) ELSE ""
